@@ -209,6 +209,46 @@ Example C16_shutdown_once_any_signals_nonvacuous :
   = [EHook HShutdown 0; ECb KShutdown 1 0].
 Proof. vm_compute. reflexivity. Qed.
 
+(* ---- whole histories: instance numbers, shutdown callbacks at most / exactly once ---- *)
+(* after every history: live instances are known, all instance numbers are below the next one
+   and pairwise different (so "each live instance" in the theorems below means each once) *)
+Theorem C16_live_instances_distinct :
+  forall ops, good (final init ops).
+Proof. exact live_instances_distinct. Qed.
+Print Assumptions C16_live_instances_distinct.
+
+(* [wf_from init ops]: the embedding program reloads only instances that are live, not after
+   process shutdown began, and does not call Instance.ShutdownCallbacks itself.  Over EVERY such
+   history (any starts, successful and failed reloads — including the F-C16-1 kind —, stops,
+   signals) the shutdown callbacks of every instance run at most once, in order: not at all, up
+   to the first error (reload), or all of them; instances that never started run none *)
+Theorem C16_shutdown_callbacks_at_most_once :
+  forall ops,
+  wf_from init ops ->
+  (forall x, In x (known (final init ops)) -> sd_ok x (proj KShutdown (i_id x) (trace (run init ops)))) /\
+  (forall j, ~ In j (ids (known (final init ops))) -> proj KShutdown j (trace (run init ops)) = []).
+Proof. exact shutdown_at_most_once. Qed.
+Print Assumptions C16_shutdown_callbacks_at_most_once.
+
+(* process shutdown: whatever happened before the first signal and however many signals (and
+   Stop / Wait) follow, every instance live at the first signal has ALL its shutdown callbacks and
+   ALL its final-shutdown callbacks run exactly once over the WHOLE history, in order *)
+Theorem C16_process_shutdown_exactly_once :
+  forall pre post x,
+  forallb (fun o => negb (is_exec o)) pre = true ->
+  wf_from init (pre ++ OExecShutdown :: post) ->
+  In x (insts (final init pre)) ->
+  let tr := trace (run init (pre ++ OExecShutdown :: post)) in
+  proj KShutdown (i_id x) tr = labels (c_shutdown (i_cfg x)) /\
+  proj KFinal (i_id x) tr = labels (c_final (i_cfg x)).
+Proof. exact process_shutdown_exactly_once. Qed.
+Print Assumptions C16_process_shutdown_exactly_once.
+
+Example C16_process_shutdown_exactly_once_nonvacuous :
+  wf_from init ([OStart quirk_old; ORestart 0 quirk_new; OStart quirk_new] ++ OExecShutdown :: [OExecShutdown; OStopAll; OWait 1])
+  /\ map i_id (insts (final init [OStart quirk_old; ORestart 0 quirk_new; OStart quirk_new])) = [1; 2].
+Proof. vm_compute. repeat split; auto. Qed.
+
 (* ---- waiting ---- *)
 (* after every history, the wait-group counter of each lineage equals the number of Serve
    goroutines of that lineage still running *)
